@@ -414,6 +414,17 @@ type c12Rec struct {
 	// snapshots: canonical data at OnBefore / OnAfter of ActionSpec actions (parallel to ev; "" elsewhere)
 	wantSnap bool
 	ext      pipeline.ExtInterface
+	// the data document the harness handed to WithData(): the recorder OBSERVES the document through the harness'
+	// own reference to it — never through ctx.Data(), which is an access of its own (an observer that asks the
+	// context for the document at every notification would stand between any two steps of the program under test)
+	data dom.ContainerBuilder
+}
+
+func (r *c12Rec) doc(ctx pipeline.ActionContext) dom.Node {
+	if r.data != nil {
+		return r.data
+	}
+	return ctx.Data()
 }
 
 func (r *c12Rec) add(e []any, err error, snap string) {
@@ -552,7 +563,7 @@ func (r *c12Rec) OnBefore(ctx pipeline.ActionContext) {
 	r.ext = ctx.Ext()
 	s := ""
 	if r.wantSnap && c12IsSpec(ctx.Action()) {
-		s = c12Snap(ctx.Data())
+		s = c12Snap(r.doc(ctx))
 	}
 	r.add([]any{"b", c12Label(ctx.Action())}, nil, s)
 }
@@ -560,7 +571,7 @@ func (r *c12Rec) OnBefore(ctx pipeline.ActionContext) {
 func (r *c12Rec) OnAfter(ctx pipeline.ActionContext, err error) {
 	s := ""
 	if r.wantSnap && c12IsSpec(ctx.Action()) {
-		s = c12Snap(ctx.Data())
+		s = c12Snap(r.doc(ctx))
 	}
 	r.add([]any{"a", c12Label(ctx.Action()), nil}, err, s)
 }
@@ -736,6 +747,7 @@ func c12ExecFns(data W, acts []pipeline.Action, wantSnap bool, fns map[string]st
 	run := &c12RunRes{rec: &c12Rec{wantSnap: wantSnap}}
 	run.outcome, run.text = guard(func() {
 		run.data = wireContainer(data)
+		run.rec.data = run.data
 		ex := c12NewExecutorFns(run.rec, run.data, fns)
 		for _, a := range acts {
 			run.errs = append(run.errs, ex.Execute(a))
